@@ -118,9 +118,14 @@ pub fn net() -> &'static Net {
                                 ev.lock().unwrap().push("tls:established".into());
                                 loop { match tokio::time::timeout(Duration::from_secs(2), t.read(&mut buf)).await {
                                     Ok(Ok(n)) if n > 0 => { ev.lock().unwrap().push("tls:ldap-message".into());
+                                        // an UnbindRequest (30 05 02 01 id 42 00) gets no response
+                                        if n >= 7 && buf[n - 2] == 0x42 && buf[n - 1] == 0x00 { continue; }
                                         let rid = first_id(&buf[..n]);
                                         let r = enc(&message(rid, c(TagClass::Application, 24, vec![enum_tag(0), octets(b""), octets(b""), p(TagClass::Context, 11, b"dn:cn=me")]), None));
                                         if t.write_all(&r).await.is_err() { return; } }
+                                    // the client has closed its side (close_notify / FIN): a peer that is slow to react - it neither answers
+                                    // with its own close_notify nor closes the connection for a while
+                                    Ok(Ok(_)) => { tokio::time::sleep(Duration::from_secs(4)).await; return }
                                     _ => return } }
                             }
                             _ => { ev.lock().unwrap().push("tls:handshake-failed".into()); }
@@ -180,6 +185,9 @@ pub fn gen_setup(rng: &mut Rng, n: usize, out: &mut Vec<String>) {
         let line = format!("setup {} {} {} {} {} none 2000", hex(u.as_bytes()), sch, hex(b"localhost"), port, st);
         if !out.iter().any(|x| *x == line) { out.push(line); }
     }
+    // ... and an ldapi URL with the StartTLS setting (F27): by path, and with a pre-opened socket
+    { let u = format!("ldapi://{}", sock_enc);
+      for std in ["none", "unix"] { let line = format!("setup {} ldapi {} none 1 {} none", hex(u.as_bytes()), hex(sock_enc.as_bytes()), std); if !out.iter().any(|x| *x == line) { out.push(line); } } }
     out.push(format!("setupx {} unreachable", hex(b"ldap://127.0.0.1:38999")));
     out.push(format!("setupx {} silent-starttls", hex(format!("ldap://127.0.0.1:{}", P_SILENT).as_bytes())));
     out.push(format!("setupx {} silent-starttls-prestream", hex(b"ldap://localhost")));
@@ -227,13 +235,17 @@ pub fn run_setup(lane: &str, args: &[&str]) -> (String, Option<String>) {
         else if res.starts_with("err:emptyunix") || res.starts_with("err:portunix") || res.starts_with("err:mismatched") || res.starts_with("err:scheme") || res.starts_with("err:url") {
             // a pre-opened stream shows up at its listener although the set-up is refused: only contacts made by the library count
             if pre == "none" && contact.is_some() { format!("{} contacted={}", res, contact.clone().unwrap()) } else { res.clone() } }
+        // an I/O-class refusal with a pre-opened stream: the stream's own connection at its listener is not a contact made by the library
+        else if res == "err:io" && pre != "none" { "err:io no-contact".to_string() }
         else { match (&contact, pre) {
             (Some(cn), "none") => { let f: Vec<&str> = cn.split(':').collect(); if f[0] == "unix" { format!("unix path={}", hex(SOCK.as_bytes())) } else { format!("tcp port={} mode={}", f[0], f[1]) } }
             (Some(cn), "tcp") => format!("pretcp mode={}", cn.split(':').nth(1).unwrap_or("?")),
             (Some(_), _) => "preunix".to_string(),
             (None, _) => format!("{} no-contact", res),
         } };
-    let oracle = if res == "panic" { Some("connection set-up panicked".to_string()) } else if res == "hang" { Some("connection set-up did not return".to_string()) } else { None };
+    let mut oracle = if res == "panic" { Some("connection set-up panicked".to_string()) } else if res == "hang" { Some("connection set-up did not return".to_string()) } else { None };
+    // C17: StartTLS asked for, a Unix-socket connection in the clear handed back
+    if starttls && args[1] == "ldapi" && (out.starts_with("unix") || out == "preunix") { oracle.get_or_insert("StartTLS was requested but an ldapi URL yields a usable cleartext connection without any error".to_string()); }
     (out, oracle)
 }
 
@@ -287,7 +299,9 @@ pub fn run_tls(args: &[&str]) -> (String, Option<String>) {
                 // use the handle: whatever it sends must travel inside TLS when TLS was requested
                 let r = tokio::time::timeout(Duration::from_millis(1500), ldap.with_timeout(Duration::from_millis(1200)).extended(WhoAmI)).await;
                 let text = match r { Ok(Ok(er)) => { er.1.text } _ => String::new() };
-                format!("ok{}", if text == "forged-in-the-clear" { " forged-reply-accepted" } else { "" })
+                // Unbind needs nothing from the peer: it returns once the request is written and the client's side is shut down
+                let ub = tokio::time::timeout(Duration::from_millis(1500), ldap.unbind()).await;
+                format!("ok{}{}", if text == "forged-in-the-clear" { " forged-reply-accepted" } else { "" }, if ub.is_err() { " unbind-hang" } else { "" })
             }
         }
     })));
@@ -299,7 +313,7 @@ pub fn run_tls(args: &[&str]) -> (String, Option<String>) {
     let saw_tls_ldap = evs.iter().any(|e| e == "tls:ldap-message");
     let clear: Vec<&String> = evs.iter().filter(|e| e.starts_with("clear:") && *e != "clear:none").collect();
     let other_clear = clear.iter().any(|e| *e == "clear:other-ldap");
-    let out = if res.starts_with("ok") { format!("ok transport={}", if saw_tls_ldap { "tls" } else { "clear" }) } else { res.clone() };
+    let out = if res.starts_with("ok") { format!("ok transport={}{}", if saw_tls_ldap { "tls" } else { "clear" }, if res.contains("unbind-hang") { " unbind-hang" } else { "" }) } else { res.clone() };
     let mut oracle = None;
     if tls_requested {
         if res.starts_with("ok") && !saw_tls_ldap { oracle = Some("TLS was requested but the returned handle talks in cleartext".to_string()); }
@@ -313,6 +327,7 @@ pub fn run_tls(args: &[&str]) -> (String, Option<String>) {
         if must_fail && res.starts_with("ok") { oracle = Some(format!("establishment must fail here (answer={}, cert={}, handshake_ok={}, verify_disabled={}) but a handle was returned", answer, cert, hs, accepts_invalid)); }
     }
     if res == "hang" { oracle.get_or_insert("connection establishment never returned (no connection timeout set)".to_string()); }
+    if res.contains("unbind-hang") { oracle.get_or_insert("unbind() did not return: it waits for the peer, which merely stays silent after the client has closed its side".to_string()); }
     if res == "panic" { oracle = Some("establishment panicked".into()); }
     (out, oracle)
 }
